@@ -11,9 +11,10 @@ clamp differ, which `omega` finds at once when the hypothesis is dropped.
 -/
 import Pandora.Gen.Locks
 import Pandora.Model.C11Modifiers
+import Pandora.Model.C11Index
 
 namespace Pandora.Bridge.C11Locks
-open Pandora.Model.C11
+open Pandora.Model.C11 Pandora.Go
 
 theorem substrBody_eq (s e l : Int) (hl : 0 ≤ l) : Pandora.Gen.Locks.substrBody s e l = substrNorm s e l := by
   simp only [Pandora.Gen.Locks.substrBody, substrNorm, Prod.mk.injEq]
@@ -29,5 +30,36 @@ theorem substrNorm_in_bounds (s e l : Int) (hl : 0 ≤ l) :
     0 ≤ (substrNorm s e l).1 ∧ (substrNorm s e l).1 ≤ (substrNorm s e l).2 ∧ (substrNorm s e l).2 ≤ l := by
   simp only [substrNorm]
   refine ⟨?_, ?_, ?_⟩ <;> (repeat' split) <;> omega
+
+/-! ### round 4: the index arithmetic behind the shared counters
+
+The regenerated bodies of `lib/mp.calcIndex`, `(*NextIterator).Next` and `(*clientpool.Pool).Next` equal the closed forms
+of `Model/C11Index.lean` for ALL arguments. The proofs split on the conditions and compare both sides: they survive
+renamed locals, reordered independent statements and an `if … else` written as early returns; they break when a
+comparison, a conversion, the representation of a counter or the order of two dependent steps changes. -/
+
+theorem calcIndexBody_eq (s : String) (a : Int) (e : Bool) (len nv rv : Int) :
+    Pandora.Gen.Locks.calcIndexBody s a e len nv rv = calcIndexM (idxKindOf s a e) len nv rv := by
+  unfold Pandora.Gen.Locks.calcIndexBody idxKindOf
+  by_cases h1 : s = "next"
+  · subst h1
+    simp [calcIndexM] <;> ((repeat' split) <;> first | rfl | (exfalso; omega) | (congr 1; omega) | simp_all)
+  · by_cases h2 : s = "rand"
+    · subst h2
+      simp [calcIndexM] <;> ((repeat' split) <;> first | rfl | (exfalso; omega) | (congr 1; omega) | simp_all)
+    · by_cases h3 : s = "last"
+      · subst h3
+        simp [calcIndexM] <;> ((repeat' split) <;> first | rfl | (exfalso; omega) | (congr 1; omega) | simp_all)
+      · cases e <;> simp [calcIndexM, h1, h2, h3] <;>
+          ((repeat' split) <;> first | rfl | (exfalso; omega) | (congr 1; omega) | simp_all)
+
+theorem iterNextBody_eq (seen : Bool) (ctr : Int) : Pandora.Gen.Locks.iterNextBody seen ctr = iterNext seen ctr := by
+  cases seen <;> simp [Pandora.Gen.Locks.iterNextBody, iterNext, ctrAsInt, goWrap, goPow] <;> ((repeat' split) <;> omega)
+
+theorem poolNextBody_eq (n ctr : Int) : Pandora.Gen.Locks.poolNextBody n ctr = poolNext n ctr := by
+  unfold Pandora.Gen.Locks.poolNextBody poolNext
+  split
+  · rfl
+  · congr 2 <;> (simp [ctrAsInt, goWrap, goPow] <;> ((repeat' split) <;> omega))
 
 end Pandora.Bridge.C11Locks
